@@ -4,6 +4,7 @@ import NunVerif.Model.Repl
 import NunVerif.Model.Cluster
 import NunVerif.Model.Election
 import NunVerif.Model.S3
+import NunVerif.Model.S3Part
 /-
   Line-protocol driver: one operation per input line, canonical output lines per operation.
   The Rust harness (`nvh`) produces the same lines from the real implementation.
@@ -196,6 +197,8 @@ structure World where
   linkOut : List (Bytes × Bytes) := []       -- lines queued on them (peer, line), oldest first
   /-- s3 storage strategy (C18): the object store, and which PUTs fail (0-based count over the run) -/
   s3mode : Bool := false
+  /-- strategy s3_patition with this many partitions (0 = the plain s3 strategy) -/
+  s3parts : Nat := 0
   objs : Objs := []
   puts : Nat := 0
   failPuts : List Nat := []
@@ -349,7 +352,8 @@ def step (w : World) (line : String) : World × List String :=
       | none => []
     let isS3 : Bool := opts.contains b!"s3"
     let w' : World := { node := n, oplog := {}, pump := opts.contains b!"pump", sup := opts.contains b!"sup", co := opts.contains b!"co" }
-    ({ w' with s3mode := isS3, failPuts := fp }, ["# reset"] ++ dumpNode n)
+    let nparts := ((optOf a1 b!"s3p").bind Bytes.parseNat).getD 0
+    ({ w' with s3mode := isS3 || nparts > 0, s3parts := nparts, failPuts := fp }, ["# reset"] ++ dumpNode n)
   | "SESS" =>
     match Bytes.parseNat a1 with
     | some sid =>
@@ -426,6 +430,10 @@ def step (w : World) (line : String) : World × List String :=
         match w.node.db? name with
         | some db =>
           let base := w.puts
+          if w.s3parts > 0 then
+            match s3pSnapshot (partitionOf w.s3parts) db w.objs reclaim ((AL.get? orders name).getD []) w.node.clock with
+            | (db', objs', clock') => { w with node := { w.node.setDb db' with clock := clock' }, objs := objs' }
+          else
           match s3Snapshot db w.objs reclaim ((AL.get? orders name).getD []) w.node.clock (fun k => !(w.failPuts.contains (base + k))) with
           | (db', objs', clock') => { w with node := { w.node.setDb db' with clock := clock' }, objs := objs', puts := base + 2 }
         | none => w) { w with node := { w.node with toSnapshot := [] } }
@@ -450,12 +458,14 @@ def step (w : World) (line : String) : World × List String :=
   | "RESTART" =>
     if w.s3mode then
       let fresh := { freshNodeAt w.node.role w.node.clock with addr := w.node.addr, pid := w.node.pid }
-      let names := Bytes.sort (s3DbNames w.objs)
+      -- the store lists its objects in key order
+      let listed := sortBy (·.1) w.objs
+      let names := if w.s3parts > 0 then Bytes.sort (s3pDbNames listed) else Bytes.sort (s3DbNames w.objs)
       let res := names.foldl (fun (acc : Option Node) name =>
         match acc with
         | none => none
         | some m =>
-          match s3LoadDb w.objs name m.clock with
+          match (if w.s3parts > 0 then s3pLoadDb listed name m.clock else s3LoadDb w.objs name m.clock) with
           | some (db, clock) => some ({ m with clock }.addDatabase db).1
           | none => none) (some fresh)
       match res with
